@@ -48,6 +48,21 @@ CLAIMED = {
                   "provenance (taint) over a typed call graph with sanitiser/context matching",
         design="DESIGN.md §4 C05, appendix B.5",
     ),
+    "C06": dict(
+        level="other",
+        text="Uniqueness of new ids decided structurally: the 13 allocators (shape ids proxy/element, slide ids, relationship ids, "
+             "part names generic/image/media/slide, timing-node ids, series idx/order, placeholder names) must draw their "
+             "population from a document- or collection-wide source (absolute xpath, whole relationship dict, every reachable "
+             "part) and every return path must be fresh by construction (max+1, first gap, candidate loop under `not in`, counter, "
+             "len+1 under the naming discipline); every function whose id parameter reaches p:cNvPr/@id of a template (19 "
+             "factories, found through the template engine) is fed at all 22 typed call sites by an allocator or the id of the "
+             "element being replaced; the n+1 slide part name is only reachable through Slides.add_slide after "
+             "rename_slide_parts on the same list; id attributes are never re-written; slide-id bounds agree with ST_SlideId "
+             "and the schema. NOT decided: turbo-mode caching across proxies, id-based lookups after later additions.",
+        technique="static analysis: idiom recognition per return path of allocators, population-scope check of xpath literals, "
+                  "typed caller analysis of id parameters located through template hole positions, dominance/order of renaming",
+        design="DESIGN.md §4 C06",
+    ),
     "C07": dict(
         level="other",
         text="The eight chart XML writers are specialised to each of the 29 chart types and evaluated abstractly; series and "
